@@ -261,7 +261,7 @@ impl From<YamlRule> for Rule {
             description: yaml_rule.description,
             export: yaml_rule
                 .export
-                .map(|s| s.iter().map(|s| s.clone().into()).collect_vec()),
+                .map(|s| s.iter().flat_map(|s| s.clone().into_specs()).collect_vec()),
         }
     }
 }
@@ -292,7 +292,7 @@ impl From<YamlTask> for Task {
             required_modules: yaml_task.required_modules,
             export: yaml_task
                 .export
-                .map(|s| s.iter().map(|s| s.clone().into()).collect_vec()),
+                .map(|s| s.iter().flat_map(|s| s.clone().into_specs()).collect_vec()),
             build: yaml_task.build,
             ignore_ctrl_c: yaml_task.ignore_ctrl_c,
             workdir: yaml_task.workdir,
